@@ -351,6 +351,8 @@ def _b_len(interp, args, kwargs):
     impl = METHODS.get((kind, "__len__"))
     if impl is not None:
         return impl(interp, v, [], {})
+    if kind == "Stub" and "__len__" in v.methods:
+        return v.methods["__len__"](interp, [], {})
     if isinstance(v, NoneV):
         raise PyRaise("TypeError", "object of type 'NoneType' has no len()")
     raise Unsupported(f"len() of {kind}")
